@@ -1,4 +1,5 @@
 import Martian.Refactor
+import Martian.RefactorGraph
 import Driver.Util
 
 /-! Line-protocol handler for property C19.
@@ -264,9 +265,155 @@ termination_by l => l.length
 def applySeq (p : Program) (steps : List String) : Option (Option Program) :=
   applySeqAux (stepsHaveLoop steps) p p steps
 
+
+/-! ## resolved call graph (Martian/RefactorGraph.lean)
+
+`C19.graph <prog> <types>` → the nodes of `deepGraph`, separated by ` ; `:
+
+    node  := ( N fqid callable S|P ( ( name rexp )* ) rexp ( rexp* ) )
+    rexp  := ( L hex ) | ( R fqid callable path* ) | ( A rexp* ) | ( M ( hexkey rexp )* )
+           | ( T ( key rexp )* ) | ( X rexp )
+    types := ( S name ( member base adim mdim )* )* | ( C name ( ( in base a m )* ) ( ( out base a m )* ) )*
+
+Struct keys travel hex-encoded in programs; the graph model compares them with
+member names, so they are decoded here (and printed plain). -/
+
+def unhexStr (s : String) : String :=
+  match Driver.bytesOfHex s with
+  | some bs => String.ofList (bs.map fun b => Char.ofNat b.toNat)
+  | none => s
+
+mutual
+  def decodeKeys : Exp → Exp
+    | .lit s => .lit s
+    | .ref r => .ref r
+    | .split e => .split (decodeKeys e)
+    | .arr es => .arr (decodeElems false es)
+    | .map st es => .map st (decodeElems st es)
+    | .nil => .nil
+    | .cons k h t => .cons k (decodeKeys h) (decodeElems false t)
+  def decodeElems (st : Bool) : Exp → Exp
+    | .cons k h t => .cons (if st then unhexStr k else k) (decodeKeys h) (decodeElems st t)
+    | .lit s => .lit s
+    | .ref r => .ref r
+    | .split e => .split e
+    | .arr es => .arr es
+    | .map b es => .map b es
+    | .nil => .nil
+end
+
+def decodeBind (b : Bind) : Bind := { b with exp := decodeKeys b.exp }
+def decodeCall (c : Call) : Call := { c with binds := c.binds.map decodeBind, mods := c.mods.map decodeBind }
+def decodeProgram (p : Program) : Program :=
+  { callables := p.callables.map (fun c => { c with calls := c.calls.map decodeCall, ret := c.ret.map decodeBind }),
+    top := p.top.map decodeCall }
+
+def pMember : P (String × Ty)
+  | "(" :: name :: base :: a :: m :: ")" :: r => do
+    let a ← a.toNat?
+    let m ← m.toNat?
+    some ((name, ⟨base, a, m⟩), r)
+  | _ => none
+
+def pStructDef : P (String × Members)
+  | "(" :: "S" :: name :: r => do
+    let (ms, r) ← pMany pMember r []
+    some ((name, ms), r)
+  | _ => none
+
+def pSig : P (String × Members × Members)
+  | "(" :: "C" :: name :: r => do
+    let (ins, r) ← pList pMember r
+    let (outs, r) ← pList pMember r
+    let (_, r) ← expect ")" r
+    some ((name, ins, outs), r)
+  | _ => none
+
+partial def pUntilBar {α : Type} (one : P α) : List String → List α → Option (List α × List String)
+  | "|" :: r, acc => some (acc.reverse, r)
+  | ts, acc => do
+    let (x, r) ← one ts
+    pUntilBar one r (x :: acc)
+
+partial def pAll {α : Type} (one : P α) : List String → List α → Option (List α)
+  | [], acc => some acc.reverse
+  | ts, acc => do
+    let (x, r) ← one ts
+    pAll one r (x :: acc)
+
+def pTypes (s : String) : Option TypeInfo := do
+  let toks := (s.splitOn " ").filter (· != "")
+  let (structs, r) ← pUntilBar pStructDef toks []
+  let sigs ← pAll pSig r []
+  some ⟨structs, sigs.map (fun s => (s.1, s.2.1)), sigs.map (fun s => (s.1, s.2.2))⟩
+
+def fqStr (fq : List String) : String := ".".intercalate fq
+
+mutual
+  partial def showR : RExp → String
+    | .lit h => join ["(", "L", h, ")"]
+    | .sref fq c path => join (["(", "R", fqStr fq, dash c] ++ path ++ [")"])
+    | .split e => join ["(", "X", showR e, ")"]
+    | .arr es => join (["(", "A"] ++ showRElems es ++ [")"])
+    | .map false es => join (["(", "M"] ++ showREntries es ++ [")"])
+    | .map true es => join (["(", "T"] ++ showREntries es ++ [")"])
+    | .nil => "?nil"
+    | .cons _ _ _ => "?cons"
+  partial def showRElems : RExp → List String
+    | .cons _ h t => showR h :: showRElems t
+    | _ => []
+  partial def entriesOf : RExp → List (String × String)
+    | .cons k h t => (k, showR h) :: entriesOf t
+    | _ => []
+  partial def showREntries (es : RExp) : List String :=
+    ((entriesOf es).mergeSort (fun a b => a.1 ≤ b.1)).map fun e => join ["(", dash e.1, e.2, ")"]
+end
+
+def showNode (n : Node) : String :=
+  let ins := (n.inputs.mergeSort (fun a b => a.1 ≤ b.1)).map fun e => join ["(", e.1, showR e.2, ")"]
+  join ["(", "N", fqStr n.fqid, dash n.callable, if n.isPipe then "P" else "S", showList ins,
+        showR n.outputs, showList (n.retained.map showR), ")"]
+
+def showGraph (g : List Node) : String :=
+  if g.isEmpty then "-" else " ; ".intercalate (g.map showNode)
+
 def handle (op : String) (args : List String) : Option String :=
   match op, args with
   | "ping", _ => some "pong"
+  | "gthm", [prog, types, eop, x, a, b] => do
+    -- instances of the call-graph theorems on a concrete program: hypothesis, conclusion
+    let p0 ← pProgram (prog.splitOn " ") []
+    let p := decodeProgram p0
+    let ti ← pTypes types
+    match eop with
+    | "renameInput" =>
+      some s!"hyp={RenInOK x a b ti p} same={decide (deepGraph (ti.renameInput x a b) (renameInput x a b p) = (deepGraph ti p).map (renNodeIn x a b))}"
+    | "renameOutput" =>
+      some s!"hyp={RenOutOK x a b ti p} same={decide (deepGraph (ti.renameOutput x a b) (renameOutput x a b p) = (deepGraph ti p).map (renNodeOut x a b))}"
+    | "removeInput" =>
+      let pairs := removeInputClosure p (closureFuel p) [(x, a)] []
+      let hyp := (p.find? x).isSome && RemInsOK pairs p
+      some s!"hyp={hyp} same={decide (deepGraph (ti.removeInputs pairs) (removeInput x a p) = pairs.foldl (fun g xq => g.map (remNodeIn xq.1 xq.2)) (deepGraph ti p))}"
+    | "renameCallable" =>
+      let hyp := WF p && FreshFor x b p && (p.find? x).isSome && RenCallOK x b ti (eraseIds p)
+      some s!"hyp={hyp} same={decide (deepGraph (ti.renameCallable x b) (eraseIds (renameCallable x b p)) = (deepGraph ti (eraseIds p)).map (renNodeCallable x b))}"
+    | _ => none
+  | "gpred", [prog, types, eop, x, a, b] => do
+    -- the graph after the edit as the theorem predicts it from the graph before
+    let p0 ← pProgram (prog.splitOn " ") []
+    let p := decodeProgram p0
+    let ti ← pTypes types
+    match eop with
+    | "renameInput" => some (showGraph ((deepGraph ti p).map (renNodeIn x a b)))
+    | "renameOutput" => some (showGraph ((deepGraph ti p).map (renNodeOut x a b)))
+    | "removeInput" =>
+      let pairs := removeInputClosure p (closureFuel p) [(x, a)] []
+      some (showGraph (pairs.foldl (fun g xq => g.map (remNodeIn xq.1 xq.2)) (deepGraph ti p)))
+    | _ => none
+  | "graph", [prog, types] => do
+    let p ← pProgram (prog.splitOn " ") []
+    let ti ← pTypes types
+    some (showGraph (deepGraph ti (decodeProgram p)))
   | "apply", [prog, eop, callable, param, new, calls, tops] => do
     let p ← pProgram (prog.splitOn " ") []
     match applyOne p [eop, callable, param, new, calls, tops] with
